@@ -7,6 +7,17 @@ from ..core import Case, err_name, call_with_alarm, Timeout, dec_val, enc_val
 _ABSENT = object()
 
 
+_BIG = 10 ** 5000
+
+
+def _raises_keyerror(fn):
+    try:
+        fn()
+    except KeyError:
+        return True
+    return False
+
+
 class _StrictKey:
     """a key whose `__eq__` works among its own kind only (`self.parts == other.parts`): a valid dict key — a dict compares keys
     only when their hashes are equal — that raises as soon as somebody compares it with a key of another kind"""
@@ -213,6 +224,13 @@ class CacheProp(SeqProp):
                   ("get(absent)", lambda: c.get(k), None), ("get(absent, default)", lambda: c.get(k, sent), sent),
                   ("absent in cache", lambda: k in c, False), ("absent in keys()", lambda: k in c.keys(), False),
                   ("len(keys()) == len(cache)", lambda: len(c.keys()) == len(c), True)]
+        # an absent key that cannot be printed (an int beyond the interpreter's limit for conversion to text): a miss all the same
+        big = _BIG
+        checks += [("pop(unprintable absent key, default)", lambda: c.pop(big, sent), sent),
+                   ("get(unprintable absent key, default)", lambda: c.get(big, sent), sent),
+                   ("unprintable absent key in cache", lambda: big in c, False),
+                   ("cache[unprintable absent key] raises KeyError", lambda: _raises_keyerror(lambda: c[big]), True),
+                   ("del cache[unprintable absent key] raises KeyError", lambda: _raises_keyerror(lambda: c.__delitem__(big)), True)]
         for name, fn, want in checks:
             try:
                 got = fn()
